@@ -304,14 +304,18 @@ def main(argv=None):
                 for tp in (False, True):
                     for d in (0.0, 0.01, 1.0):
                         core.append({"kind": "pending", "seed": a.seed * 1000 + vi * 50 + len(core), "verb": verb, "passive": pv, "then_pass": tp, "delay": d, "fs_delay": [0.0001, 0.002] if d else None})
-        cases = list(core)
-        for i in range(n):
-            s = a.seed * 1_000_000 + i
-            rnd = random.Random(s * 5 + 2)
-            t = rnd.choice(list(TABLES))
-            cases.append({"seed": s, "table": t, "ops": gen_history(rnd, t)})
-        for c in cases[:2] + cases[len(core) : len(core) + 1]:
-            c["want_sample"] = True
+        def gen():
+            yield from core
+            for i in range(n):
+                s = a.seed * 1_000_000 + i
+                rnd = random.Random(s * 5 + 2)
+                t = rnd.choice(list(TABLES))
+                c = {"seed": s, "table": t, "ops": gen_history(rnd, t)}
+                if i == 0:
+                    c["want_sample"] = True
+                yield c
+
+        cases = common.with_samples(gen(), 2)
         done = 0
         for case, res in pool.map(run_case, cases, deadline=deadline, chunksize=8):
             done += 1
